@@ -13,7 +13,7 @@ _FILE_OK = [("file_stays_a_valid_current_export", "file_ok(self, old(self._bloom
 _IN_FLIGHT = ("recorded_count_lags_by_at_most_the_addition_in_flight",
               "self._els_added == count0 or self._els_added == count0 + 1")
 
-contract("BloomFilterOnDisk.__update", contexts=["BloomFilterOnDisk"], properties=["C11", "C14", "C01"],
+contract("BloomFilterOnDisk.__update", contexts=["BloomFilterOnDisk"], properties=["C11", "C14", "C01", "C05"],
          let=[("count0", "le_bytes(self._bloom, self._bloom_length + 8, 8)")],
          requires=["inv_bloom_disk(self)", "fp_open(self)", ("nothing_buffered", _NO_PENDING),
                    ("count_fits_uint64", "0 <= self._els_added < 2**64")],
@@ -27,7 +27,7 @@ contract("BloomFilterOnDisk.__update", contexts=["BloomFilterOnDisk"], propertie
 
 # the base-class body reached through super().add_alt() with an on-disk receiver
 clone_contract("BloomFilter.add_alt", "BloomFilter.add_alt@BloomFilterOnDisk", contexts=["BloomFilterOnDisk"],
-               properties=["C11", "C01"],
+               properties=["C11", "C01", "C05"],
                let=[("count0", "le_bytes(self._bloom, self._bloom_length + 8, 8)")],
                requires=["inv_bloom_disk(self)", ("enough_hashes", "len(hashes) >= self._number_hashes"),
                          ("file_is_current", "self._els_added == count0")],
@@ -35,7 +35,7 @@ clone_contract("BloomFilter.add_alt", "BloomFilter.add_alt@BloomFilterOnDisk", c
                           ("recorded_count_lags_by_at_most_the_addition_in_flight",
                            "self._els_added == count0 or self._els_added == count0 + 1")])
 
-contract("BloomFilterOnDisk.add_alt", contexts=["BloomFilterOnDisk"], properties=["C11", "C01", "C14"],
+contract("BloomFilterOnDisk.add_alt", contexts=["BloomFilterOnDisk"], properties=["C11", "C01", "C14", "C05"],
          params={"hashes": "list[int]"},
          let=[("count0", "le_bytes(self._bloom, self._bloom_length + 8, 8)")],
          requires=["inv_bloom_disk(self)", "fp_open(self)", ("nothing_buffered", _NO_PENDING),
@@ -83,7 +83,7 @@ contract("BloomFilterOnDisk.close", contexts=["BloomFilterOnDisk"], properties=[
                   ("closed", "implies(was_open, " + FP + " is None)"),
                   ("closing_twice_is_harmless", "implies(not was_open, same(self._bloom, old(self._bloom)))")])
 
-contract("BloomFilterOnDisk.clear", contexts=["BloomFilterOnDisk"], properties=["C19", "C11"],
+contract("BloomFilterOnDisk.clear", contexts=["BloomFilterOnDisk"], properties=["C19", "C11", "C05"],
          requires=["inv_bloom_disk(self)", "fp_open(self)", ("nothing_buffered", _NO_PENDING)],
          modifies=["self._bloom", "self._els_added", FP],
          ensures=[("counter_zero", "self._els_added == 0"),
@@ -92,7 +92,7 @@ contract("BloomFilterOnDisk.clear", contexts=["BloomFilterOnDisk"], properties=[
                   ("rest_of_footer_untouched", _FOOTER_REST_SAME),
                   ("inv", "inv_bloom_disk(self)"), ("still_open_nothing_buffered", "fp_open(self) and " + _NO_PENDING)])
 
-clone_contract("BloomFilter.clear", "BloomFilter.clear@BloomFilterOnDisk", contexts=["BloomFilterOnDisk"], properties=["C19", "C11"])
+clone_contract("BloomFilter.clear", "BloomFilter.clear@BloomFilterOnDisk", contexts=["BloomFilterOnDisk"], properties=["C19", "C11", "C05"])
 
 _DISK_MOD = ["self._est_elements", "self._fpr", "self._bloom_length", "self._hash_func", "self._els_added",
              "self._number_hashes", "self._num_bits", "self._bloom", FP, "self._on_disk", "self._type"]
@@ -141,8 +141,10 @@ contract("BloomFilterOnDisk.__init__", contexts=["BloomFilterOnDisk"], propertie
          + [("path", "self._filepath == resolve(filepath)")])
 
 contract("BloomFilterOnDisk.__bytes__", contexts=["BloomFilterOnDisk"], properties=["C05", "C11", "C19"],
-         returns="bytes", requires=["inv_bloom_disk(self)"], modifies=[],
-         ensures=[("the_mapped_file", "len(result) == len(self._bloom) and all(result[i] == self._bloom[i] for i in range(0, len(result)))")])
+         returns="bytes", requires=["inv_bloom_disk(self)", ("file_is_current", _COUNT_FIELD + " == self._els_added")], modifies=[],
+         ensures=[("the_mapped_file", "len(result) == len(self._bloom) and all(result[i] == self._bloom[i] for i in range(0, len(result)))"),
+                  # C05: the bytes channel carries the same payload as export(): the live element count, not a stale one
+                  ("payload_carries_the_live_count", "le_bytes(result, self._bloom_length + 8, 8) == self._els_added")])
 
 contract("BloomFilterOnDisk.export", contexts=["BloomFilterOnDisk"], properties=["C11", "C05", "C19"],
          params={"file": "key"}, let=[("count0", "le_bytes(self._bloom, self._bloom_length + 8, 8)")],
